@@ -260,12 +260,11 @@ theorem C02_total_jsr (cfg : Config) (hk : cfg.router = .jsr) (hwf : cfg.wfTempl
         obtain ⟨ps, hps⟩ := hcase
         rw [hps]; simp
 
-/-- **C02, RouterJSR311**: on checked templates (route-less services included), hygienic media lists,
-    newline-free paths and requests whose `Content-Length` header and field agree, the outcome is
-    exactly what the decision table says for the dispatcher's service -/
+/-- **C02, RouterJSR311**: on checked templates (route-less services included), hygienic media lists
+    and newline-free paths, the outcome is exactly what the decision table says for the dispatcher's
+    service -/
 theorem C02_classify_jsr_partial (E : ReEnv) (cfg : Config) (hk : cfg.router = .jsr) (hwf : cfg.wfTemplates = true)
-    (hroots : Jsr.rootsRead cfg = true) (hh : Spec.mediaHygiene cfg = true) (req : Req) (hn : '\n' ∉ req.path)
-    (hb : Spec.bodyCoherent req = true) :
+    (hroots : Jsr.rootsRead cfg = true) (hh : Spec.mediaHygiene cfg = true) (req : Req) (hn : '\n' ∉ req.path) :
     Spec.c02Holds E cfg req (route E cfg req)
       (match route E cfg req with | .selected _ _ _ => 1 | _ => 0) = true := by
   unfold route routeTagged
@@ -304,7 +303,7 @@ theorem C02_classify_jsr_partial (E : ReEnv) (cfg : Config) (hk : cfg.router = .
         · rintro ⟨hrt, ha⟩
           obtain ⟨ts, hts⟩ := Jsr.template_of_wf hk hwf hsvc hrt
           exact ⟨hrt, (Jsr.matched_iff_pathAdmits E hrt hts hn hwex hwm).2 ha⟩
-      have hdc := detect_classify E .jsr svc.built cands req hmem' (fun r hr => C02.hygiene_route hh hsvc hr) hb
+      have hdc := detect_classify E .jsr svc.built cands req hmem' (fun r hr => C02.hygiene_route hh hsvc hr)
       cases hdr : detectRoute cands req with
       | error e =>
         obtain ⟨c, a⟩ := e
